@@ -494,6 +494,25 @@ pub fn decode_shx(shx: &[u8]) -> Result<DecIndex, String> {
 }
 
 /// C04 on bytes: does `shx` address exactly the records of `shp` (record boundaries from `decode`)?
+/// The index read on its own: every entry points at bytes of the .shp that are the header of the
+/// record of that rank (number i+1, the same content length). Needs no decodable .shp.
+pub fn check_index_entries(shp: &[u8], shx: &[u8]) -> Result<(), String> {
+    let idx = decode_shx(shx)?;
+    for (i, (off, len)) in idx.entries.iter().enumerate() {
+        let at = *off as i64 * 2;
+        if at < 100 || at as usize + 8 > shp.len() {
+            return Err(format!("index entry {} points at byte {} of a .shp of {} bytes", i, at, shp.len()));
+        }
+        let at = at as usize;
+        let num = i32::from_be_bytes([shp[at], shp[at + 1], shp[at + 2], shp[at + 3]]);
+        let words = i32::from_be_bytes([shp[at + 4], shp[at + 5], shp[at + 6], shp[at + 7]]);
+        if num != i as i32 + 1 || words != *len {
+            return Err(format!("index entry {} = ({}, {}) but the .shp holds (number {}, {} words) there", i, off, len, num, words));
+        }
+    }
+    Ok(())
+}
+
 pub fn check_index(shp: &[u8], shx: &[u8], dec: &DecFile) -> Result<(), String> {
     let idx = decode_shx(shx)?;
     if shx[0..24] != shp[0..24] {
